@@ -67,7 +67,8 @@ def fit_case(case):
     where = {k: (v if not isinstance(v, tuple) else list(v)) for k, v in p.items()}
     where["n"] = n
     where["d"] = d
-    model = Kauri(**kw)
+    # estimator-protocol route: on the seed-axis deviation the hyperparameters arrive through set_params on a default estimator
+    model = Kauri(**kw) if p["seed"] == 0 else Kauri().set_params(**kw)
     if n < msl:
         try:
             model.fit(X, y)
